@@ -44,4 +44,24 @@ def Token.show : Token → String
   | .star => "Star" | .slash => "Slash" | .caret => "Caret" | .percent => "Percent"
   | .illegal => "Illegal" | .eof => "Eof"
 
+def Token.ofShow (s : String) : Option Token :=
+  match s.splitOn ":" with
+  | ["Identifier", h] => (unhexText h).map .ident
+  | ["Int", h] => (unhexText h).map .int
+  | ["Float", h] => (unhexText h).map .float
+  | ["String", h] => (unhexText h).map .str
+  | [w] =>
+    match w with
+    | "If" => some .kwIf | "Else" => some .kwElse | "Return" => some .kwReturn | "Func" => some .kwFunc
+    | "While" => some .kwWhile | "Declare" => some .kwDeclare | "True" => some .kwTrue | "False" => some .kwFalse
+    | "Break" => some .kwBreak | "Continue" => some .kwContinue
+    | "Lte" => some .lte | "Gte" => some .gte | "Eq" => some .eq | "Neq" => some .neq | "And" => some .and | "Or" => some .or
+    | "Assign" => some .assign | "Semi" => some .semi | "Comma" => some .comma | "Dot" => some .dot
+    | "OpenParen" => some .lparen | "CloseParen" => some .rparen | "OpenBrace" => some .lbrace | "CloseBrace" => some .rbrace
+    | "OpenBracket" => some .lbracket | "CloseBracket" => some .rbracket
+    | "Bang" => some .bang | "Lt" => some .lt | "Gt" => some .gt | "Minus" => some .minus | "Plus" => some .plus
+    | "Star" => some .star | "Slash" => some .slash | "Caret" => some .caret | "Percent" => some .percent
+    | _ => none
+  | _ => none
+
 end Nl
